@@ -335,6 +335,26 @@ theorem h2_body_events_eq_spec (c : Cfg) (chunks : List Bytes) (k : Nat) :
 example : (brun ⟨true, true, some⟩ init ([[0, 0, 0], [0, 2, 7]].map BOp.data ++ [.flush, .flush])).2 =
     [Ev.data (some ⟨0, 2⟩) 1] := by decide
 
+/-- corollary: the body events do not depend on the SIZES of the DATA frames — `h2_body_events_eq_spec`
+has no bound on a chunk, so two framings of the same bytes (frames of 16384 bytes, one frame of
+2^20 bytes, one frame per byte), each followed by any positive number of `emitUnfinished` calls,
+give the same events -/
+theorem h2_body_events_frame_size_independent (c : Cfg) (f1 f2 : List Bytes) (k1 k2 : Nat)
+    (h : f1.flatten = f2.flatten) :
+    (brun c init (f1.map BOp.data ++ List.replicate (k1+1) BOp.flush)).2 =
+    (brun c init (f2.map BOp.data ++ List.replicate (k2+1) BOp.flush)).2 := by
+  rw [h2_body_events_eq_spec, h2_body_events_eq_spec, h]
+
+/-- non-vacuity: ANY body `a ++ b` (of 16385 bytes, of 2^20) in one DATA frame or cut at `a`; and a concrete pair -/
+example (c : Cfg) (a b : Bytes) :
+    (brun c init ([a ++ b].map BOp.data ++ List.replicate 1 BOp.flush)).2 =
+    (brun c init ([a, b].map BOp.data ++ List.replicate 2 BOp.flush)).2 :=
+  h2_body_events_frame_size_independent c [a ++ b] [a, b] 0 1 (by simp)
+
+example : [[0, 0, 0, 0, 1, 65, 0]].flatten = [[0, 0, 0], [0, 1, 65], ([0] : Bytes)].flatten ∧
+    (brun ⟨true, true, some⟩ init ([[0, 0, 0, 0, 1, 65, 0]].map BOp.data ++ [.flush])).2 =
+      [Ev.data (some ⟨0, 1⟩) 1, Ev.data none 1] := by decide
+
 example : (brun ⟨true, true, some⟩ init ([[0, 0, 0]].map BOp.data ++ [.flush, .flush, .flush])).2 =
     [Ev.data none 3] := by decide
 
